@@ -3,6 +3,8 @@ import os, re, sys
 sys.path.insert(0, os.path.dirname(os.path.abspath(__file__)))
 import _common as C
 from vf import rsscan, build as VB
+import copy
+import scope as SC
 B = 'feel-evaluator/src/builders.rs'
 S = 'feel/src/scope.rs'
 I = 'feel-evaluator/src/iterations.rs'
@@ -28,6 +30,21 @@ def sfn(name, **kw):
          'rewrites': [R8], 'body_prefix': PRE, 'sig_rewrite': [(r'\(&self', '(&mut self')]}
     d.update(kw)
     return d
+
+def _lookup_copies():
+    out = []
+    for p in SC.UNIT['parts']:
+        if p.get('kind') == 'fn' and p.get('path') in ('impl FeelContext::fn search_deep', 'impl Scope::fn get_entry', 'impl Scope::fn search_deep', 'impl FeelContext::fn get_entry'):
+            p = copy.deepcopy(p)
+            p['key'] = p['key'].replace('scope::', 'purity::lookup::')
+            p['props'] = []
+            p['auto_props'] = []
+            for k in ('requires', 'ensures'):
+                if k in p:
+                    p[k] = [tuple(c[:2]) for c in p[k]]
+            out.append(p)
+    return out
+LOOKUPS = _lookup_copies()
 
 UNIT = {
     'name': 'purity',
@@ -202,6 +219,46 @@ UNIT = {
                                           ('seq', 'ite.seq() =~= evaluators@.map_values(|e: Evaluator| &e)'),
                                           ('values_so_far', 'values@.len() == ite.index@ && forall |i: int| 0 <= i < ite.index@ ==> values@[i] == ev_value(#[trigger] evaluators@[i], old(scope).contexts@)', ['C01'])],
                             'body_prefix': 'proof { assert(*evaluator == evaluators@[ite.index@ as int]); }'}}},
+        # ---- names: a name is its innermost binding in the stack, else the built-in function of that name, else null; a qualified name is the
+        # innermost context path of its segments. Scope::get_entry / search_deep are re-verified here under the contracts of unit scope (that
+        # unit reports them) so that the two closures are checked against contracts that hold on this tree.
+        {'kind': 'vrs', 'file': 'scope/spec.vrs'},
+        {'kind': 'vrs', 'file': 'purity/names.vrs'},
+    ] + LOOKUPS + [
+        {'kind': 'closure', 'src': B, 'path': 'fn build_name', 'name': 'name_value', 'key': 'purity::build_name', 'props': ['C01', 'C10', 'C13'], 'auto_props': AE, 'loops': 0, 'ret': 'r',
+         'closure_header': r'Ok\(Box::new\(move \|scope: &Scope\| \{',
+         'signature': 'pub fn name_value(scope: &Scope, name: Name) -> Value',
+         'rewrites': [('R3',), ('RX', 'R11', r'Bif::from_str\(&name\.to_string\(\)\)', 'bif_from_name(&name)', 1)],
+         'ensures': [('innermost_binding_then_built_in_function_then_null', 'match stack_lookup(scope.contexts@, name) { Some(v) => r == v, None => match bif_named(name) { Some(b) => r == Value::BuiltInFunction(b), None => r is Null } }')]},
+        {'kind': 'closure', 'src': B, 'path': 'fn build_qualified_name', 'name': 'qualified_name_value', 'key': 'purity::build_qualified_name', 'props': ['C01', 'C10', 'C13'], 'auto_props': AE, 'loops': 1, 'ret': 'r',
+         'lead_params': ['scope: &mut Scope'], 'extra_params': ['evaluators: &Vec<Evaluator>'],
+         'rewrites': [('R3',), ('RX', 'R8e', r'\bevaluator\(scope\)', 'evaluator.call(scope)', 1),
+                      ('RX', 'R2v', r'for evaluator in &evaluators \{', 'for evaluator in evaluators.iter() {', 1),
+                      ('RX', 'R14', r'let mut names = vec!\[\];', 'let mut names: Vec<Name> = vec![];', 1),
+                      ('RX', 'R17', r'scope\.search_deep\(&names\)\.unwrap_or_else\(\|\| value_null!\(\)\)', 'match scope.search_deep(&names) { Some(v_) => v_, None => value_null!() }', 1)],
+         'ensures': [('caller_scope_untouched', STACK_SAME),
+                     ('innermost_context_path_of_the_segments', 'match stack_path(old(scope).contexts@, segment_names(evaluators@, old(scope).contexts@, evaluators@.len() as int)) { Some(v) => r == v, None => r is Null }')],
+         'loop_specs': {0: {'iter_name': 'ite',
+                            'invariant': [('scope_not_touched', 'scope.contexts@ == old(scope).contexts@'),
+                                          ('seq', 'ite.seq() =~= evaluators@.map_values(|e: Evaluator| &e)'),
+                                          ('segments_so_far', 'names@ =~= segment_names(evaluators@, old(scope).contexts@, ite.index@ as int)')],
+                            'body_prefix': 'proof { assert(*evaluator == evaluators@[ite.index@ as int]); }'}}},
+        {'kind': 'closure', 'src': B, 'path': 'fn build_function_invocation_positional', 'name': 'invoke_positional', 'key': 'purity::build_function_invocation_positional', 'props': ['C01', 'C13'], 'auto_props': AE, 'loops': 0, 'ret': 'r',
+         'lead_params': ['scope: &mut Scope'], 'extra_params': ['argument_evaluators: &Vec<Evaluator>'],
+         'rewrites': [('R3',), ('RX', 'R13', r'argument_evaluators\.iter\(\)\.map\(\|evaluator\| evaluator\(scope\)\)\.collect::<Vec<Value>>\(\)', 'evaluate_all(argument_evaluators, scope)', 1),
+                      ('RX', 'R11', r'bifs::positional::evaluate_bif\(bif, &arguments\)', 'evaluate_bif_positional(bif, &arguments)', 1)],
+         'splices': [{'id': 'argument_values', 'op': 'before', 'anchor': 'match function {', 'text': 'proof { assert(values_of(argument_evaluators@, old(scope).contexts@, arguments@)); }'}],
+         'ensures': [('caller_scope_untouched', STACK_SAME),
+                     ('the_function_gets_the_argument_values_in_order', 'exists |args: Seq<Value>| #[trigger] values_of(argument_evaluators@, old(scope).contexts@, args) && call_positional(function, old(scope).contexts@, args, r)', ['C01'])]},
+        {'kind': 'closure', 'src': B, 'path': 'fn build_function_invocation_named', 'name': 'invoke_named', 'key': 'purity::build_function_invocation_named', 'props': ['C01', 'C13'], 'auto_props': AE, 'loops': 0, 'ret': 'r',
+         'lead_params': ['scope: &mut Scope'],
+         'rewrites': [('R3',), ('RX', 'R11', r'bifs::named::evaluate_bif\(bif, &arguments\)', 'evaluate_bif_named(bif, &arguments)', 1)],
+         'ensures': [('caller_scope_untouched', STACK_SAME),
+                     ('the_function_gets_the_named_arguments', 'call_named(function, old(scope).contexts@, arguments, r)', ['C01'])]},
+        {'kind': 'closure', 'src': B, 'path': 'fn build_function_definition', 'name': 'function_definition', 'key': 'purity::build_function_definition', 'props': ['C01'], 'auto_props': ['C01', 'C05'], 'loops': 0, 'ret': 'r',
+         'rewrites': [('R3',)],
+         'ensures': [('parameters_and_body_as_written', '(lhv is FormalParameters && rhv is FunctionBody) ==> r == Value::FunctionDefinition(lhv->FormalParameters_0, rhv->FunctionBody_0, FeelType::Any)'),
+                     ('null_otherwise', '!(lhv is FormalParameters && rhv is FunctionBody) ==> r is Null')]},
         {'kind': 'closure', 'src': M, 'path': 'fn build_context_evaluator', 'name': 'boxed_context', 'key': 'purity::model::build_context_evaluator', 'props': P, 'auto_props': A, 'loops': 1, 'ret': 'r',
          'lead_params': ['scope: &mut Scope'], 'extra_params': ['entry_evaluators: &Vec<(Option<Name>, Evaluator)>'],
          'rewrites': [('RX', 'R8e', r'\bevaluator\(scope\)', 'evaluator.call(scope)', None),
